@@ -380,3 +380,77 @@ def comb_tree(rng, blocks=10, pools=None, sid=1):
         x = {'l': pick(rng, pools.cats), 'e': 'HD', 'c': [x]}
     return {'sid': sid, 'root': {'l': pools.root_label, 'e': '--',
                                  'c': [x] + rest}}
+
+
+# ---- hostile inventories ("spice") -----------------------------------------
+# Strings with a special role somewhere in the package, by class.  An oracle
+# names the classes its property's domain allows; spice() rewrites a few
+# labels / tags / words of a finished spec with members of those classes and
+# reports which classes it used (the runner turns that into strata).
+SPICE = {
+    # categories of inner constituents that are keywords elsewhere
+    'cat-keyword': ('cat', ['VROOT', 'TOP', 'EMPTY', 'ROOT']),
+    # labels that end in the head marker character
+    'cat-apostrophe': ('cat', ["N'", "X''", "V'"]),
+    'pos-apostrophe': ('pos', ["''", "'", "N'"]),
+    # labels that begin with digits / contain characters with a role in some
+    # file format or option syntax (no brackets, no trailing digits)
+    'cat-digit-first': ('cat', ['1N', '2V']),
+    'cat-at-x': ('cat', ['@NX', '@PX']),
+    'cat-punct-char': ('cat', ['A,B', 'A:B', 'A#B', 'A*', 'A$', 'A/B', 'a']),
+    'pos-punct-char': ('pos', ['$,', '$.', 'P+D', 'X:Y', 'PRP$', 'N,N', '#',
+                               '*', '``', 'nn']),
+    # tags that the label parser would take apart
+    'pos-decorated': ('pos', ['NN-SB', "VVFIN'", 'ADV-1', 'ADV=2']),
+    # words
+    'word-unicode': ('word', ['café', 'Å', 'ﬁn',
+                              'İstanbul', 'ſ', '\U0001F600',
+                              'a​b', 'ＡＢ１', 'של',
+                              'Å']),
+    'word-typographic-punct': ('word', ['“', '”', '«', '»',
+                                        '–', '—', '…', '’',
+                                        '‚']),
+    'word-keyword': ('word', ['EMPTY', 'VROOT', 'TOP', '--', '-NONE-', '@',
+                              '0', '-1']),
+    'word-unispace': ('word', WORDS_UNISPACE),
+    'word-percent': ('word', ['%', '100%', '%d', '%s%s', '5%-Klausel']),
+}
+SPICE_USED = {}
+
+
+def spice(rng, spec, classes, p=0.25, q=0.3, root_labels=None, sid0=False):
+    """With probability p rewrite labels / tags / words of spec (each node with
+    probability q) with strings of ONE randomly chosen class of `classes`.
+    Uses its own random stream.  Returns the class used or None."""
+    import random as _random
+    r = _random.Random(rng.random())
+    used = None
+    if root_labels and r.random() < p:
+        spec['root']['l'] = r.choice(root_labels)
+        SPICE_USED['root label other than VROOT'] = \
+            SPICE_USED.get('root label other than VROOT', 0) + 1
+    if sid0 and r.random() < p * 0.6:
+        spec['sid'] = 0
+        SPICE_USED['sentence id 0'] = SPICE_USED.get('sentence id 0', 0) + 1
+    if classes and r.random() < p:
+        cls = r.choice(sorted(classes))
+        kind, items = SPICE[cls]
+        hit = False
+        for n in walk(spec['root']):
+            if n is spec['root'] or r.random() >= q:
+                continue
+            if kind == 'cat' and 'c' in n:
+                n['l'] = r.choice(items)
+                hit = True
+            elif kind == 'pos' and 'c' not in n:
+                n['p'] = r.choice(items)
+                hit = True
+            elif kind == 'word' and 'c' not in n:
+                n['w'] = r.choice(items)
+                if n.get('lm') not in (None, '--'):
+                    n['lm'] = n['w']
+                hit = True
+        if hit:
+            used = cls
+            SPICE_USED['spice ' + cls] = SPICE_USED.get('spice ' + cls, 0) + 1
+    return used
